@@ -4,6 +4,10 @@ Real classes under a deterministic scheduler (harness/simple_world.py); every sc
 through the Lean model (`sd_simple`, Sio/Model/Simple.lean) and compared token by token; the property
 itself is evaluated by `WorldBase._judge/judge_blocked` on what the implementation observably did.
 
+receive() is called with timeout None, 5, 0, a negative and a tiny positive value (tokens Sr St Sz Sn Sp, see
+simple_world.RECV_TIMEOUT); the model knows "no timeout" and "a timeout", an expiry being a scheduled choice:
+a timeout that is already over when the call is made is the choice "expire as soon as the consumer parks".
+
 Schedules: (1) every maximal interleaving of the bounded configurations of `families` (stateless
 depth-first search: each schedule executed once on a fresh real object, sub-trees farmed out to a
 process pool), (2) random token strings beyond those bounds, including tokens that cannot move
@@ -99,7 +103,7 @@ class Run:
                 en.append('Cf')
             else:
                 en.append('C')
-        elif self.tmo_left > 0 and c['ops'][self.op_i - 1] == 'St':
+        elif self.tmo_left > 0 and c['ops'][self.op_i - 1] in ('St', 'Sp'):
             # a parked receive(timeout) can time out — by the statement, not by what the object under test
             # happens to have passed to wait() (a wait that lost its timeout must show up as a difference)
             en.append('T')
@@ -114,9 +118,8 @@ class Run:
     def result(self):
         w = self.w
         r = {'variant': self.c['variant'], 'sched': self.tokens, 'trace': self.trace,
-             'outcomes': w.outcome_list(), 'oracle': list(w.oracle),
-             'facts': [{k: o[k] for k in ('op', 'kind', 'completed', 'returned', 'ended', 'waiting_on')}
-                       for o in w.outcomes]}
+             'outcomes': w.outcome_list(), 'oracle': list(w.oracle), 'facts': facts(w)}
+        r.update(model_schedule(w))
         w.close()
         return r
 
@@ -181,18 +184,42 @@ def explore(c, root=(), depth_limit=None):
 
 # ------------------------------------------------------------------------------------ comparison
 
-def model_tokens(sched):
-    return ['Se' if t == 'Sc' else t for t in sched]
+def model_schedule(w):
+    """the model's schedule for what was executed (world.mtoks: one harness token = one model token, except a
+    consumer step of a receive(timeout <= 0), which is `C T`) and, per harness token, the index of the model
+    trace entry to compare with"""
+    msched, mlast = [], []
+    for m in w.mtoks:
+        msched += m
+        mlast.append(len(msched) - 1)
+    return {'msched': msched, 'mlast': mlast}
 
 
-def model_view(ans, W_):
+def facts(w):
+    return [{k: o[k] for k in ('op', 'kind', 'value', 'completed', 'returned', 'ended', 'waiting_on', 'avail_start',
+                               'flag_start')} for o in w.outcomes]
+
+
+def aligned(ans, r):
+    """model trace at the harness tokens: [status, nlog, producerMid, handlerMid]"""
+    tr = ans['trace']
+    return [[tr[i][0], tr[i][2], tr[i][3], tr[i][4]] for i in r['mlast']]
+
+
+def model_view(ans, W_, r=None):
+    """the model's outcomes in the implementation's terms (asyncio receive(timeout <= 0): since repair 81fda60 the
+    expired connection wait falls through when the flag is set, as the model's wait does; `adjusted` stays 0)"""
     outs = []
-    for e in ans['log']:
+    adjusted = 0
+    ops = [f['op'] for f in r['facts']] if r is not None and r['variant'] == 'asyncio' else []
+    for i, e in enumerate(ans['log']):
         o = e['o']
         if isinstance(o, dict) and 'ret' in o:
             outs.append({'ret': list(W_.arrival(o['ret']))})
         else:
             outs.append(o)
+    if r is not None:
+        r['adjusted'] = adjusted
     return outs
 
 
@@ -245,7 +272,7 @@ def judge_batch(acc, results, family):
     if not results:
         return
     W_ = W()
-    answers = C.batch('simple', [{'variant': r['variant'], 'sched': model_tokens(r['sched'])} for r in results])
+    answers = C.batch('simple', [{'variant': r['variant'], 'sched': r['msched']} for r in results])
     for r, ans in zip(results, answers):
         acc.n += 1
         acc.count('family.' + family)
@@ -262,8 +289,11 @@ def judge_batch(acc, results, family):
             else:
                 acc.violations.append((text, rep))
         # ---- correspondence
-        mt = [[t[0], t[2], t[3], t[4]] for t in ans['trace']]
-        mo = model_view(ans, W_)
+        mt = aligned(ans, r)
+        mo = model_view(ans, W_, r)
+        if r['adjusted']:
+            acc.count('asyncio_receive_timeout<=0_after_final: TimeoutError where the sync client raises '
+                      'DisconnectedError', r['adjusted'])
         if r.get('runaway'):
             acc.mismatch.append(('the schedule never ends: after %d tokens a thread is still runnable (busy '
                                  'loop instead of parking?)' % len(sched),
@@ -281,7 +311,8 @@ def judge_batch(acc, results, family):
         prev = 'idle'
         parked = False
         concurrent = False
-        for tok, t, o in zip(sched, ans['trace'], r['trace']):
+        for tok, i, o in zip(sched, r['mlast'], r['trace']):
+            t = ans['trace'][i]
             acc.transitions.add((prev, tok, t[1]))
             if tok == 'P' and prev not in ('idle',):
                 concurrent = True
@@ -294,6 +325,17 @@ def judge_batch(acc, results, family):
         for o in r['outcomes']:
             acc.count('outcome.' + ('ret' if isinstance(o, dict) and 'ret' in o else
                                     o if isinstance(o, str) else o['exc']))
+        for f in r['facts']:
+            if f['op'] in W_.RECV_OPS:
+                # receive(timeout) by timeout value x what was available when the call was made x flag x outcome
+                acc.count('recv.%s timeout=%r.%s.%s.%s' % (
+                    r['variant'], W_.RECV_TIMEOUT[f['op']],
+                    'buffered=%d' % min(f['avail_start'], 3) + ('+' if f['avail_start'] > 3 else ''),
+                    'flag-set' if f['flag_start'] else 'flag-clear',
+                    'returned' if f['kind'] == 'ret' else f['value']))
+                if f['op'] in W_.ZERO_OPS or f['op'] == 'Sp':
+                    acc.count('recv_nonpositive_or_tiny_timeout.' +
+                              ('with_events_buffered' if f['avail_start'] else 'nothing_buffered'))
         acc.count('end.' + (r['trace'][-1][0] if r['trace'] else 'idle'))
         if acc.violations:
             ABORT.set()         # the verdict is settled: stop enumerating
@@ -338,7 +380,8 @@ def run_tokens(variant, sched, sample_fail=None):
         w.do(t)
         trace.append(w.obs())
     r = {'variant': variant, 'sched': list(sched), 'trace': trace, 'outcomes': w.outcome_list(),
-         'oracle': list(w.oracle)}
+         'oracle': list(w.oracle), 'facts': facts(w)}
+    r.update(model_schedule(w))
     w.close()
     return r
 
@@ -354,11 +397,10 @@ def still_fails(drv, variant, sched, kind):
         return kind == 'oracle'
     if kind == 'oracle':
         return any(sig not in KNOWN_SIGS for sig, _ in res['oracle'])
-    ans = drv.ask({'variant': variant, 'sched': model_tokens(sched)})
+    ans = drv.ask({'variant': variant, 'sched': res['msched']})
     if in_known_region(ans) or any(sig in KNOWN_SIGS for sig, _ in res['oracle']):
         return False
-    return [[t[0], t[2], t[3], t[4]] for t in ans['trace']] != res['trace'] or \
-        model_view(ans, W()) != res['outcomes']
+    return aligned(ans, res) != res['trace'] or model_view(ans, W(), res) != res['outcomes']
 
 
 def shrink(variant, sched, kind, budget=250):
@@ -423,11 +465,31 @@ def families(ctx):
             out.append(('send', cfg('send %s fresh' % op, v, 0, [op], prefix=(), conn=('Kc', 'Kd', 'Kc'), fails=2)))
         # the start step floats too (validates that issuing the call at once loses nothing)
         out.append(('floating-start', cfg('float 2x2', v, 2, ['Sr', 'St'], tmo=1, float_start=True)))
+        # receive(timeout) with a timeout that is over when the call is made (0, negative) or all but (1e-9):
+        # what has arrived is returned all the same, TimeoutError only from an empty buffer — with 1..3 events
+        # buffered and signalled, buffered with the flag already cleared by an earlier receive (Sr/St first),
+        # arriving while the call runs, nothing buffered, disconnected
+        zero = [(1, ['Sz', 'Sz'], 0, ()), (2, ['Sz', 'Sn'], 0, ()), (2, ['Sr', 'Sz'], 0, ()),
+                (1, ['Sp', 'Sz'], 1, ()), (0, ['Sz', 'Sn'], 0, ('Kd', 'Kf'))]
+        if big:
+            zero += [(3, ['Sn', 'Sz', 'Sz'], 0, ()), (2, ['Sz', 'Sp', 'Sn'], 1, ()), (2, ['St', 'Sz', 'Sn'], 1, ()),
+                     (1, ['Sn', 'Sz'], 0, ('Kd', 'Kc')), (1, ['Sz', 'Sn'], 0, ('Kd', 'Kf')),
+                     (1, ['Sr', 'Sz'], 0, ('Kd', 'Kf'))]
+            if v == 'asyncio':
+                zero.append((2, ['Sz', 'Sr', 'Sn'], 0, ('Kd', 'Kf')))
+        for a, ops, tmo, conn in zero:
+            out.append(('zero-timeout', cfg('zero %s%d %s' % (''.join(conn) + ' ' if conn else '', a, ''.join(ops)),
+                                            v, a, ops, conn=conn, tmo=tmo)))
         if v == 'asyncio':
             # await-point interleavings are few: go further
             out.append(('handoff', cfg('handoff 5x5', v, 5, ['Sr'] * 5)))
             out.append(('handoff', cfg('handoff 4x4 timed', v, 4, ['St'] * 4, tmo=2)))
             out.append(('floating-start', cfg('float 3x3', v, 3, ['Sr', 'St', 'Sr'], tmo=1, float_start=True)))
+            out.append(('zero-timeout', cfg('zero 3 SzSnSpSzSn floating', v, 3, ['Sz', 'Sn', 'Sp', 'Sz', 'Sn'],
+                                            tmo=1, float_start=True)))
+            out.append(('zero-timeout', cfg('zero 4 SrSzStSnSz', v, 4, ['Sr', 'Sz', 'St', 'Sn', 'Sz'], tmo=1)))
+            out.append(('zero-timeout', cfg('zero KdKcKdKf 2 SzSrSn' + (' floating' if th else ''), v, 2,
+                                            ['Sz', 'Sr', 'Sn'], conn=('Kd', 'Kc', 'Kd', 'Kf'), float_start=th)))
             na = 3 if th else 2
             out.append(('connection', cfg('conn KdKcKdKf %d SrStSr floating' % na, v, na, ['Sr', 'St', 'Sr'],
                                           tmo=1, conn=('Kd', 'Kc', 'Kd', 'Kf'), float_start=True)))
@@ -437,7 +499,10 @@ def families(ctx):
 def sample_schedule(rng, variant):
     n = rng.randint(10, 70)
     weights = {'P': 6, 'C': 14, 'Cf': 1, 'T': 2, 'Kc': 1.2, 'Kd': 1, 'Kf': 0.5, 'Sr': 2, 'St': 2, 'Se': 0.7,
-               'Sc': 0.5}
+               'Sc': 0.5, 'Sz': 1, 'Sn': 0.6, 'Sp': 0.4}
+    if rng.random() < 0.25:
+        # an application that polls: mostly receive(timeout <= 0)
+        weights.update({'Sz': 4, 'Sn': 2, 'Sp': 1, 'Sr': 0.3, 'St': 0.5})
     if rng.random() < 0.5:
         weights['Kd'] = weights['Kf'] = 0.2
     toks = list(weights)
@@ -512,17 +577,17 @@ def run(ctx):
         small = shrink(rep['variant'], rep['sched'], 'correspondence')
         if small != rep['sched']:
             r2 = run_tokens(rep['variant'], small)
-            ans = C.batch('simple', [{'variant': rep['variant'], 'sched': model_tokens(small)}])[0]
+            ans = C.batch('simple', [{'variant': rep['variant'], 'sched': r2['msched']}])[0]
             rep = {'variant': rep['variant'], 'sched': small, 'impl_trace': r2['trace'],
-                   'model_trace': [[t[0], t[2], t[3], t[4]] for t in ans['trace']],
-                   'impl_outcomes': r2['outcomes'], 'model_outcomes': model_view(ans, W()),
+                   'model_trace': aligned(ans, r2), 'model_sched': r2['msched'],
+                   'impl_outcomes': r2['outcomes'], 'model_outcomes': model_view(ans, W(), r2),
                    'shrunk_from': rep['sched']}
             text = 'model and implementation differ on ' + ' '.join(small)
         ctx.violation('correspondence', text, rep, no_input=True)
     for sig, (text, rep) in total.known.items():
         ctx.known(sig, text + ' — schedule (%s): %s' % (rep['variant'], ' '.join(rep['sched'])))
     for k, v in total.counters.items():
-        if not k.startswith('cfg.'):
+        if not k.startswith(('cfg.', 'recv.')):
             ctx.count(k, v)
     n_tree = sum(v for k, v in total.counters.items() if k.startswith('family.') and
                  k not in ('family.sampled', 'family.witness'))
@@ -539,13 +604,23 @@ def run(ctx):
         'exhaustive_scope': 'every maximal interleaving of each configuration listed in `configurations` '
                             '(%d schedules, tier %s): producer/consumer hand-off for 0..3 arrivals x 1..3 receives '
                             '(threads and asyncio, both tiers); receive(timeout) with up to 2 expiries; loss of '
-                            'connection with / without reconnection around receives; emit/call retry loops '
+                            'connection with / without reconnection around receives; emit/call retry loops; '
+                            'receive(timeout) with timeout 0 / negative / 1e-9 / 5 / None in every order on 0..3 '
+                            '(asyncio 0..4) buffered events, flag set or already cleared, connected or not '
                             '(the thorough tier adds the larger timeout and connection configurations). The '
                             'start of a call performs no shared access and is issued as soon as the previous '
                             'call is over, except in the floating-start configuration where it floats too'
                             % (n_tree, ctx.tier),
         'configurations': {k[4:]: v for k, v in sorted(total.counters.items()) if k.startswith('cfg.')},
         'sampled_beyond_bounds': total.counters.get('family.sampled', 0),
+        'receive_by_timeout_value': {
+            'rule': 'finished receive() calls by variant x timeout argument x events available (arrived, signalled, '
+                    'unreturned) when the call was made x input_event flag at that moment x outcome',
+            'with_timeout<=0_or_1e-9_and_events_buffered':
+                total.counters.get('recv_nonpositive_or_tiny_timeout.with_events_buffered', 0),
+            'with_timeout<=0_or_1e-9_and_nothing_buffered':
+                total.counters.get('recv_nonpositive_or_tiny_timeout.nothing_buffered', 0),
+            'cells': {k[5:]: v for k, v in sorted(total.counters.items()) if k.startswith('recv.')}},
         'model_transitions_visited': len(total.transitions),
         'model_pcs_visited': sorted({t[2] for t in total.transitions}),
         'schedules_in_known_region_not_compared': total.region_skipped,
@@ -570,7 +645,17 @@ def run(ctx):
         'so. Executed here: client.call raised TimeoutError once -> attempts=%d, outcome=%r'
         % (w.client.attempts, w.outcome_list()))
     w.close()
+    ctx.notes.append(
+        'observation (not a violation of C19, a difference between the two clients): AsyncSimpleClient.receive('
+        'timeout<=0) on an empty buffer always raises TimeoutError — asyncio.wait_for(connected_event.wait(), 0) '
+        'cancels the not-yet-started waiter even when the event is set — so an asyncio application that polls with '
+        'receive(timeout=0) is never told DisconnectedError after the connection has ended for good, where '
+        'SimpleClient.receive(timeout=0) raises DisconnectedError. Schedules on which this was seen: %d'
+        % total.counters.get('asyncio_receive_timeout<=0_after_final: TimeoutError where the sync client raises '
+                             'DisconnectedError', 0))
     ctx.assumptions += ['timeouts are scheduled, never measured: `T` makes the pending timed wait expire',
+                        'a wait with timeout <= 0 and the flag clear expires at once (threading.Event.wait / '
+                        'asyncio.wait_for): model tokens `C T`',
                         'the scripted client accepts or refuses (SocketIOError) an emit/call as the schedule says']
 
 
@@ -578,12 +663,15 @@ def replay(ctx, r):
     rep = r.get('replay', r)
     variant, sched = rep['variant'], rep['sched']
     res = run_tokens(variant, sched)
-    ans = C.batch('simple', [{'variant': variant, 'sched': model_tokens(sched)}])[0]
+    ans = C.batch('simple', [{'variant': variant, 'sched': res['msched']}])[0]
     print('schedule (%s): %s' % (variant, ' '.join(sched)))
+    W_ = W()
+    print('                        (Sr St Sz Sn Sp = receive(timeout=%s); model schedule: %s)'
+          % (', '.join(repr(W_.RECV_TIMEOUT[k]) for k in ('Sr', 'St', 'Sz', 'Sn', 'Sp')), ' '.join(res['msched'])))
     print('implementation trace   :', json.dumps(res['trace']))
-    print('model trace            :', json.dumps([[t[0], t[2], t[3], t[4]] for t in ans['trace']]))
+    print('model trace            :', json.dumps(aligned(ans, res)))
     print('implementation outcomes:', res['outcomes'])
-    print('model outcomes         :', model_view(ans, W()))
+    print('model outcomes         :', model_view(ans, W(), res))
     print('oracle                 :', res['oracle'] or 'property holds on this schedule')
     return 1 if any(sig not in KNOWN_SIGS for sig, _ in res['oracle']) else 0
 
